@@ -550,3 +550,24 @@ func VerifC16DerivedOptions() {
 		vassert(got[k] == want[k], "an option derived from a base option reaches exactly the nodes of the base plus its own designation: "+k)
 	}
 }
+
+// an option value of the wrong type, a nil option included, designated to a typed node is an error of the call
+func VerifC16WrongTypeOption() {
+	ctx := context.Background()
+	vcfg("fifo", 1)
+	var rec []c16Recv
+	r, err := c16Build(&rec)
+	vassert(err == nil, "graph compiles")
+	var opt Option
+	switch vchoose("value", 3) {
+	case 0:
+		opt = WithLambdaOption(nil).DesignateNode("L1")
+	case 1:
+		opt = WithLambdaOption("a string").DesignateNode("L1")
+	case 2:
+		opt = WithLambdaOption(c16OptB{1, 1}).DesignateNode("L1") // L1 takes c16OptA
+	}
+	_, rerr := r.Invoke(ctx, map[string]any{"in": 1}, opt)
+	vassert(rerr != nil, "an option of the wrong type designated to a node is an error")
+	vassert(len(rec) == 0, "and reaches no node")
+}
